@@ -26,9 +26,10 @@ def judge_stage(ctx, name, drv_args, clauses, judge="solids/SolidJudge", timeout
             rec = recs[rid]
             key = keyfn(rec, clause) if keyfn else "%s:%s:%s" % (rec["site"], rec["variant"], clause)
             small = dict(rec)
-            if "inside" in small and len(small["inside"]) > 200:
-                small["inside"] = small["inside"][:200] + ["..."]
-            what = "%s (%s) record #%d: clause %s%s" % (rec["site"], rec["variant"], rid, clause,
+            for big in ("inside", "queries"):
+                if big in small and len(small[big]) > 200:
+                    small[big] = small[big][:200] + ["..."]
+            what = "%s (%s) record #%d: clause %s%s" % (rec.get("site", name), rec.get("variant", ""), rid, clause,
                                                        (" panic=" + rec["panic"][:200]) if rec.get("panic") else "")
             ctx.violation(key, what, {"spec": judge + ".tla", "record": small})
     ctx.counts["traces_validated_against_impl"] += stats["records"]
